@@ -54,8 +54,9 @@ mut("retry-strong-self-ref", ["C12"], "retry.py",
     "        self_ref = lambda: self\n        self._submit_thread = Thread(", "thread holds a strong reference to its executor")
 mut("zip-index-off-by-one", ["C15"], "futures/zip.py",
     "                self.fs[index] = f.result()\n", "                self.fs[index - 1] = f.result()\n", "results stored one slot off")
-mut("apply-append-instead-of-insert", ["C16"], "futures/apply.py",
-    "                args.insert(0, x)\n", "                args.append(x)\n", "positional arguments in reverse order")
+mut("apply-kwargs-misaligned", ["C16"], "futures/apply.py",
+    "        kwargs = dict(zip(keys, values[1 + nargs :]))\n", "        kwargs = dict(zip(keys, values[nargs:]))\n",
+    "keyword arguments shifted by one slot")
 mut("backoff-exponent-off-by-one", ["C05"], "retry.py",
     "        return min(self._sleep * (self._exponent ** (attempt - 1)), self._max_sleep)\n",
     "        return min(self._sleep * (self._exponent ** attempt), self._max_sleep)\n", "back-off exponent off by one")
